@@ -4,8 +4,9 @@ Decided: the structural agreement between the code that lays a mutable share
 out (Publish, SDMF/MDMF write proxies) and the code that reads it back
 (Retrieve, MDMFSlotReadProxy): encoding-parameter formulas, on-disk tables,
 section extents, tail-segment selection and the trim rule (DESIGN.md section 5,
-C09).  The byte-level stitching of an in-place update is value-level and stays
-undecided."""
+C09); and, by bounded evaluation of the functions' own statements, the segment
+ranges, the head/tail trimming of ranged reads and the byte-level stitching of
+an in-place update."""
 from sa.h import *
 import copy
 import struct
@@ -41,14 +42,37 @@ EXPLANATION = (
     "the (shnum, block) pairs, so the result does not depend on the order the servers answered in, and the tail "
     "decoder is used exactly for the last segment; (11) every old segment the update asks for exists in the version "
     "being updated (FINDING on the unmodified tree: an append at offset == size where size is 0 or a multiple of S "
-    "asks for segment number num_segments). "
-    "Undecided: offset/length stitching of TransformingUploadable.read, Retrieve._set_segment head/tail trimming, "
-    "block-hash-tree patching in Publish.update, zfec and AES algebra, zero-length updates, sizes beyond 4 segments "
-    "for the evaluated ranges (the arithmetic has no size-dependent branch other than the ones the grid crosses).")
+    "asks for segment number num_segments); (7, evaluated) Publish.update lays the file out for max(old length, "
+    "end of the written range) and starts its push loop (_current_segment) at the first segment of the range; "
+    "(10) the decoder's blocks are the first and the decryption salt the second component of the "
+    "{shnum: (block, salt)} answers (shape inference over the function's CFG); the read proxy fills the verinfo salt "
+    "slot with the salt exactly for SDMF shares; (12) Retrieve._set_segment gives the consumer exactly the bytes of "
+    "[offset, offset + size) that lie in the segment and advances to the next segment (evaluated with abstract byte "
+    "strings over boundary reads, first / middle / last segment); (13) TransformingUploadable(__init__, get_size, "
+    "read) hands Publish, segment by segment, old head bytes of the start segment + new data + old tail bytes of the "
+    "end segment, i.e. exactly the new file contents (evaluated over boundary offsets / lengths / file sizes, writes "
+    "of length >= 1, inside, up to and beyond the old end of file); (14) the fetched old start segment, old end "
+    "segment and old block hash tree keep their roles from update_range through the get_block_and_salt order, the "
+    "update_data tuple, the per-role decode (with the segment numbers _do_update_update recorded), the gatherResults "
+    "order, to TransformingUploadable(start, end) and Publish.update(blockhashes); (15) every function on the "
+    "write / update / modify / read path returns the Deferred of the work it started (never None or falling off the "
+    "end), _update sends every update either to the re-encode path or to the in-place chain fetch -> decode -> "
+    "build-and-publish with (data, offset), and the modify loop waits for its upload; (16) MDMFSlotWriteProxy places "
+    "the block hash tree behind the last salt||block (evaluated __init__ + put_block); (17) the share writers' "
+    "remote call carries, under the writer's share number, the queued data vectors (self._writevs / the joined SDMF "
+    "share) on every path. "
+    "Undecided: block-hash-tree patching in Publish.update (old leaves kept, new leaves set), zfec and AES algebra, "
+    "zero-length updates, sizes beyond 4 segments for the evaluated ranges (the arithmetic has no size-dependent "
+    "branch other than the ones the grid crosses), whether the condition under which the proxies' tail block size "
+    "falls back to the full block size is D % S == 0 (only the two formulas are compared; a wrong condition makes "
+    "put_block / the block hash check fail loudly for every file that is not a multiple of S), test vectors and "
+    "checkstrings (C12), share placement, pause / stop handling, status and timing bookkeeping.")
 TECHNIQUE = ("static analysis: polynomial normal forms of the size/offset formulas compared across writer and reader, "
              "folded struct format tables with field-role sequences, version-dominated CFG branches, bounded concrete "
-             "evaluation of the segment-range arithmetic by a CFG interpreter over boundary inputs, order provenance "
-             "of the decoder's two input sequences")
+             "evaluation (CFG interpreter over ints, dicts and abstract byte strings; nothing of the package is "
+             "imported or run) of the segment-range, trimming, stitching and share-layout arithmetic over boundary "
+             "inputs, order provenance of the decoder's two input sequences, shape inference for answer components, "
+             "positional role tracking across the update-data hand-offs, return-value provenance of Deferreds")
 
 LAY = "mutable.layout"
 WP = LAY + ":MDMFSlotWriteProxy"
@@ -1039,7 +1063,7 @@ def run(ctx: Context):
 
     # ---- 6. in-place update reads the same verinfo fields ------------------
     with ctx.rule("C09.6", "R5/R6", "the in-place update path takes segment size, data length and the SDMF salt from "
-                  "the verinfo positions the producers use, and computes the start segment like Publish", expected=7) as r:
+                  "the verinfo positions the producers use, and computes the start segment like Publish", expected=8) as r:
         _need("the verinfo positions of C09.1", pos, T_PUB)
         iS, iD = pos["S"], pos["D"]
         bv = idx.func(RP + ".get_verinfo._build_verinfo")
@@ -1048,6 +1072,23 @@ def run(ctx: Context):
         if len(iSalt) != 1:
             raise AnchorVanished("salt position in the verinfo tuple")
         iSalt = iSalt[0]
+        # the read proxy fills the slot with the SDMF salt for version-0 shares and leaves it empty for MDMF shares
+        bvn = FlowNorm(bv)
+        slot = ret_t.elts[iSalt]
+        r.site(bv, slot, "salt slot (reader)")
+        if isinstance(slot, ast.Name):
+            fills = [(n, assign_value(n, slot.id)) for n in bv.cfg().nodes if assign_value(n, slot.id) is not None]
+        else:
+            fills = []
+        if not fills:
+            raise AnalysisError("cannot decide what %s puts into verinfo[%d]" % (short(bv), iSalt))
+        for (n, v) in fills:
+            empty = isinstance(v, ast.Constant) and v.value is None
+            ver = _node_version(idx, bv, bvn, n)
+            r.require(ver == (1 if empty else 0) and (empty or attr_path(v) == "self._salt"), bv, bv.loc(n.ast),
+                      "the read proxy puts %s into verinfo[%d] for %s shares; the update and download paths tell SDMF "
+                      "(salt) from MDMF (None) by this slot" % (src(bv, v), iSalt,
+                                                                {0: "SDMF", 1: "MDMF"}.get(ver, "any version of")))
         for q, want in ((SW + ".get_verinfo", "self._share_pieces['salt']"), (WP + ".get_verinfo", "None")):
             f = idx.func(q)
             t = [n for n in f.cfg().nodes if is_return(n)][0].ast.value
@@ -1123,7 +1164,7 @@ def run(ctx: Context):
             raise AnchorVanished("Publish.update(data, offset, blockhashes, version) signature changed")
         T7 = [("%s[%d]" % (ps[3], pos["D"]), "D"), ("self._servermap.size_of_version(%s)" % ps[3], "D"),
               ("%s.get_size()" % ps[0], "NEW")]
-        allowed = {"D", "NEW", norm_src("max(D, NEW)")}
+        allowed = {"D", "NEW", "max(D, NEW)", "max(NEW, D)"}     # (max's arguments are ordered before the names are mapped)
         for (n, form, fin) in _attr_forms(pu, pun, "self.datalength", T7):
             r.site(pu, n.ast, "patched length")
             r.require(form in allowed, pu, pu.loc(n.ast),
@@ -1131,22 +1172,66 @@ def run(ctx: Context):
                       "version passed in, whose length is %s[%d] (a cached node size is stale after an update that "
                       "extended the file: the next update truncates the layout and every share fails validation)" % (
                           form, ps[3], pos["D"]))
+        # ... and, evaluated: the length is max(old length, end of the written range), and the segments pushed are
+        # those of the written range (the composition of update() with setup_encoding_parameters)
+        pmod7 = idx.module("allmydata.mutable.publish")
+        S7 = _div_ceil(folder.name("DEFAULT_MUTABLE_MAX_SEGMENT_SIZE", pmod7, None), 3) * 3
+        T7A = ("self.datalength", "self.segment_size", "self.starting_segment", "self.end_segment", "self._current_segment")
+        first = None
+        runs = 0
+        r.site(pu, None, "evaluated length and pushed segments")
+        pts7 = _boundary_points(S7)
+        for Z in [x for x in pts7 if x >= 1]:
+            for off in [x for x in pts7 if x <= Z and x // S7 < _div_ceil(Z, S7)][::2] + [Z - 1]:
+                for L in sorted({1, S7, Z - off, Z - off + 1, max(1, Z - off - 1)}):
+                    if L < 1 or first:
+                        continue
+                    E = off + L
+                    sim = _Sim(idx, track=T7A)
+                    sim.halt_at_loops = True
+                    heap = {"self": {"_version": folder.name("MDMF_VERSION", pmod7, None), "_node": _Ref("node")},
+                            "node": {"get_required_shares()": 3, "get_total_shares()": 10}, "data": {"get_size()": E}}
+                    fr = {"self": _Ref("self"), ps[0]: _Ref("data"), ps[1]: off, ps[2]: UNK,
+                          ps[3]: _verinfo(pos, None, S7, Z, 3, 10)}
+                    outs = [o for o in sim.run(pu, fr, heap)]
+                    runs += 1
+                    what = "a %d-byte write at offset %d of a %d-byte file (S=%d)" % (L, off, Z, S7)
+                    if len(outs) != 1:
+                        raise AnalysisError("cannot evaluate Publish.update up to its writer loop for %s (%d paths)" % (
+                            what, len(outs)))
+                    me = outs[0][2]["self"]
+                    got = {a: me.get(a.split(".", 1)[1], UNK) for a in T7A}
+                    if any(not isinstance(v, int) for v in got.values()):
+                        raise AnalysisError("cannot evaluate %s of Publish.update for %s" % (
+                            sorted(a for a, v in got.items() if not isinstance(v, int)), what))
+                    want = {"self.datalength": max(Z, E), "self.starting_segment": off // S7,
+                            "self._current_segment": off // S7, "self.end_segment": _div_ceil(E, S7) - 1}
+                    for a, w in sorted(want.items()):
+                        if got[a] != w and not first:
+                            first = "for %s Publish.update sets %s = %d; the patched file is %d bytes long and the " \
+                                    "uploadable supplies segments %d..%d" % (what, a, got[a], max(Z, E), off // S7,
+                                                                             _div_ceil(E, S7) - 1)
+        r.count(runs)
+        if first:
+            sts = [n for n in pu.cfg().nodes if "self.datalength" in node_stores(n)]
+            r.violation(pu, pu.loc(sts[-1].ast), first)
 
     # ---- 8. segment ranges, by bounded concrete evaluation ------------------
     S3 = None
     with ctx.rule("C09.8", "R6", "the segments a publish pushes are exactly those holding the bytes its uploadable "
                   "supplies (first = offset // S, last = div_ceil(data.get_size(), S) - 1), and a ranged read fetches "
                   "exactly the segments holding [offset, offset + size); decided by evaluating the functions' own "
-                  "arithmetic over boundary inputs", expected=4) as r:
+                  "arithmetic over boundary inputs", expected=5) as r:
         pmod = idx.module("allmydata.mutable.publish")
         mdmf = folder.name("MDMF_VERSION", pmod, None)
         maxseg = folder.name("DEFAULT_MUTABLE_MAX_SEGMENT_SIZE", pmod, None)
         pubs = idx.func(PUB + ".setup_encoding_parameters")
         off_p = first_positional_params(pubs)[0]
-        PT = ("self.segment_size", "self.num_segments", "self.starting_segment", "self.end_segment")
-        sites = {a: _last_store(pubs, a) for a in ("self.starting_segment", "self.end_segment")}
+        PT = ("self.segment_size", "self.num_segments", "self.starting_segment", "self.end_segment", "self._current_segment")
+        sites = {a: _last_store(pubs, a) for a in ("self.starting_segment", "self.end_segment", "self._current_segment")}
         r.site(pubs, sites["self.starting_segment"], "first pushed segment")
         r.site(pubs, sites["self.end_segment"], "last pushed segment")
+        r.site(pubs, sites["self._current_segment"], "segment the push loop starts at")
         bad = {}
         runs = 0
         for K in (3, 4):
@@ -1177,7 +1262,8 @@ def run(ctx: Context):
                             s_ = got["self.segment_size"]
                             if s_ <= 0:
                                 raise AnalysisError("segment size evaluates to %d for %s" % (s_, what))
-                            want = {"self.starting_segment": off // s_, "self.end_segment": _div_ceil(E, s_) - 1}
+                            want = {"self.starting_segment": off // s_, "self.end_segment": _div_ceil(E, s_) - 1,
+                                    "self._current_segment": off // s_}
                             for a, w in want.items():
                                 if got[a] != w:
                                     bad.setdefault(a, "for %s (S=%d) %s is %d; the uploadable supplies the bytes of "
@@ -1305,7 +1391,8 @@ def run(ctx: Context):
     # ---- 10. decoder inputs --------------------------------------------------
     with ctx.rule("C09.10", "R1", "Retrieve._decode_blocks hands the decoder the blocks and their share numbers as "
                   "parallel sequences (the same positional selection of one sequence of (shnum, block) pairs), and "
-                  "uses the tail decoder exactly for the last segment", expected=4) as r:
+                  "uses the tail decoder exactly for the last segment; the blocks are the first and the salt the "
+                  "second component of the (block, salt) answers", expected=7) as r:
         db = idx.func(RET + "._decode_blocks")
         dbn = FlowNorm(db, depth=8)
         par = _parents(db)
@@ -1339,6 +1426,38 @@ def run(ctx: Context):
                             "path: %s" % (rp, want[1], w.brief()), w)
         r.require({"self._tail_decoder", "self._segment_decoder"} <= recvs, db, db.loc(),
                   "the decoders used are %s; the tail segment is encoded with its own parameters" % sorted(map(str, recvs)))
+        # which component of the {shnum: (block, salt)} answers goes where
+        res_p = first_positional_params(db)[0]
+        envs = _component_types(db, {res_p: ("list", ("dict", "shnum", ("tuple", ("block", "salt"))))})
+        for (n, c) in decs:
+            r.site(db, c, "decoder input components")
+            env = envs.get(n.id, {})
+            tb, ti = _type_of(env, c.args[0]), _type_of(env, c.args[1])
+            if _unknown_type(tb) or _unknown_type(ti):
+                raise AnalysisError("cannot decide which parts of the (block, salt) answers reach %s (%s, %s)" % (
+                    src(db, c), _type_txt(tb), _type_txt(ti)))
+            r.require(tb == ("list", "block") and ti == ("list", "shnum"), db, db.loc(c),
+                      "the decoder is given %s as blocks and %s as share numbers; the answers are {shnum: (block, salt)}, "
+                      "so anything but the blocks decodes to garbage of the wrong length without any error" % (
+                          _type_txt(tb), _type_txt(ti)))
+        proc = [f for f in db.nested.values() if f.name == "_process"]
+        if len(proc) != 1:
+            raise AnchorVanished("_decode_blocks._process")
+        defn = [m for m in cfg.nodes if m.kind == "stmt" and m.ast is proc[0].node]
+        if len(defn) != 1:
+            raise AnalysisError("definition of _process not found in the CFG of _decode_blocks")
+        env = envs.get(defn[0].id, {})
+        for n in proc[0].cfg().nodes:
+            if is_return(n) and isinstance(n.ast.value, ast.Tuple) and len(n.ast.value.elts) == 2:
+                e = n.ast.value.elts[1]
+                r.site(proc[0], e, "salt handed to decryption")
+                if isinstance(e, ast.Name) and e.id in all_defs(proc[0]):
+                    raise AnalysisError("the salt returned by _process is computed inside it")
+                ts = _type_of(env, e)
+                if _unknown_type(ts):
+                    raise AnalysisError("cannot decide which part of the (block, salt) answers is used as the salt (%s)" % _type_txt(ts))
+                r.require(ts == "salt", proc[0], proc[0].loc(e), "the segment is decrypted with a key derived from %s of "
+                          "the (block, salt) answers instead of the salt" % _type_txt(ts))
 
     # ---- 11. the fetched boundary segments exist -----------------------------
     with ctx.rule("C09.11", "R6", "every old boundary segment an in-place update asks the servers for exists in the "
@@ -1721,6 +1840,487 @@ def run(ctx: Context):
                   "Publish.update's `%s` is %s, not the version being updated" % (
                       pps[3], src(bu, got[pps[3]]) if pps[3] in got else "missing"))
 
+    # ---- 15. every step of an operation returns the Deferred of the work it started ----------------------------
+    with ctx.rule("C09.15", "R1", "each function on the write / update / read path returns the Deferred on which the "
+                  "work it started completes (never None, never falling off the end), so the caller's Deferred cannot "
+                  "fire before the shares are written / the bytes delivered; _update dispatches every update to the "
+                  "re-encode path or to the in-place chain fetch -> decode -> build uploadable and publish",
+                  expected=26) as r:
+        OPS = [MFV + "." + x for x in ("update", "_update", "_do_modify_update", "_do_update_update", "_update_servermap",
+                                       "_decode_and_decrypt_segments", "_build_uploadable_and_finish", "overwrite",
+                                       "_overwrite", "_upload", "modify", "_modify", "_modify_and_retry", "_modify_once",
+                                       "read", "_read", "_do_serialized")]
+        OPS += [PUB + ".update", PUB + ".publish", RET + ".download", RET + ".decode", RET + "._process_segment",
+                RET + "._maybe_decode_and_decrypt_segment", RET + "._decode_blocks"]
+        for q in OPS:
+            fn = idx.func(q)
+            fnorm = FlowNorm(fn, depth=8)
+            cfg = fn.cfg()
+            r.site(fn, None, "returns its Deferred")
+            for (sid, lab) in cfg.pred[cfg.exit.id]:
+                if lab == "exc":
+                    continue
+                n = cfg.nodes[sid]
+                if not is_return(n):
+                    r.violation(fn, fn.loc(n.ast) if n.ast is not None else fn.loc(), "%s can fall off its end without "
+                                "returning the Deferred of the work it started; its caller's Deferred then fires at "
+                                "once and the operation is reported done before (or without) being carried out" % short(fn))
+                    continue
+                why = _not_a_deferred(fn, fnorm, n, n.ast.value)
+                if why:
+                    r.violation(fn, fn.loc(n.ast), "%s returns %s instead of the Deferred of the work it started; its "
+                                "caller's Deferred then fires at once and the operation is reported done before (or "
+                                "without) being carried out" % (short(fn), why))
+        # the modify loop: an upload that is started is waited for
+        mo = idx.func(MFV + "._modify_once")
+        ap = [f for f in mo.nested.values() if calls_in_func(f, "_upload")]
+        if len(ap) != 1:
+            raise AnchorVanished("_modify_once no longer has one callback that uploads the modified contents")
+        ap = ap[0]
+        r.site(ap, None, "upload of the modified contents is returned")
+        for n in ap.cfg().nodes:
+            if has_call("_upload")(n) and not is_return(n):
+                v = [t for t in node_stores(n)]
+                rets = [m for m in ap.cfg().nodes if is_return(m) and isinstance(m.ast.value, ast.Name) and m.ast.value.id in v]
+                r.require(bool(rets), ap, ap.loc(n.ast), "the upload of the modified contents is started but its Deferred "
+                          "is not returned; modify() then reports success before the new contents are written")
+        regs = [x for x in registrations(mo) if x.kind == "cb" and x.target_name() == ap.name]
+        r.require(bool(regs), mo, mo.loc(), "%s is not registered on the download Deferred of _modify_once" % ap.name)
+        # _update: the dispatch
+        up = idx.func(MFV + "._update")
+        upn = FlowNorm(up, depth=8)
+        ups = first_positional_params(up)
+        cfg = up.cfg()
+        chain_var = None
+        for n in cfg.nodes:
+            if n.kind == "stmt" and isinstance(n.ast, ast.Assign) and isinstance(n.ast.value, ast.Call) \
+                    and call_tail(n.ast.value) == "_do_update_update" and isinstance(n.ast.targets[0], ast.Name):
+                chain_var = n.ast.targets[0].id
+        if chain_var is None:
+            raise AnchorVanished("_update no longer keeps the Deferred of _do_update_update")
+        r.site(up, None, "update dispatch")
+        for n in cfg.nodes:
+            if not is_return(n) or n.ast.value is None:
+                continue
+            v = upn.resolve(n, n.ast.value)
+            if isinstance(v, ast.Name) and v.id == chain_var:
+                continue
+            if isinstance(v, ast.Call) and call_tail(v) in ("_do_modify_update", "_do_update_update"):
+                continue
+            if _not_a_deferred(up, upn, n, n.ast.value):
+                continue            # reported above
+            r.violation(up, up.loc(n.ast), "_update returns %s, which is neither the re-encoding update nor the in-place "
+                        "update chain" % src(up, n.ast.value))
+
+        for n in cfg.nodes:
+            if (has_call("_do_modify_update")(n) or has_call("_do_update_update")(n)) and not is_return(n) \
+                    and not (n.kind == "stmt" and isinstance(n.ast, ast.Assign)):
+                r.violation(up, up.loc(n.ast), "_update starts %s but neither returns nor keeps its Deferred" % src(up, n.ast))
+
+        def same_args(fn_, call, callee_q, what):
+            cal = idx.func(callee_q)
+            cps = first_positional_params(cal)
+            got = [attr_path(a) for a in call.args] + [None] * 4
+            r.require(got[:2] == ups[:2] and not call.keywords, fn_, fn_.loc(call), "%s is given (%s), the update is "
+                      "(%s, %s) = (%s)" % (what, ", ".join(src(fn_, a) for a in call.args), ups[0], ups[1],
+                                           ", ".join(cps[:2])))
+        for c in calls_in_func(up, "_do_modify_update"):
+            same_args(up, c, MFV + "._do_modify_update", "_do_modify_update")
+        for c in calls_in_func(up, "_do_update_update"):
+            same_args(up, c, MFV + "._do_update_update", "_do_update_update")
+        chain = [x for x in registrations(up, chain_var) if x.kind == "cb"]
+        names = [x.target_name().split(".")[-1] for x in chain]
+        want = ["_decode_and_decrypt_segments", "_build_uploadable_and_finish"]
+        r.require(names == want, up, up.loc(), "the in-place update chain is %s, expected fetch -> %s" % (names, " -> ".join(want)))
+        for x in chain:
+            if x.target_name().split(".")[-1] in want:
+                r.require([attr_path(a) for a in x.args] == ups[:2], up, up.loc(x.call), "%s is registered with (%s), "
+                          "the update is (%s, %s)" % (x.target_name(), ", ".join(src(up, a) for a in x.args), ups[0], ups[1]))
+
+    # ---- 16. the share-data region holds every block ----------------------------------------
+    with ctx.rule("C09.16", "R5", "MDMFSlotWriteProxy places the block hash tree behind the last block: every "
+                  "salt||block written by put_block lies inside [offsets['share_data'], offsets['block_hash_tree']) and "
+                  "blocks do not overlap; decided by evaluating __init__ and put_block over boundary file sizes",
+                  expected=2) as r:
+        _need("the segment size of C09.8", S3)
+        S = S3
+        wpi = idx.func(WP + ".__init__")
+        pb = idx.func(WP + ".put_block")
+        ips = first_positional_params(wpi)       # shnum, storage_server, storage_index, secrets, seqnum, k, N, S, D
+        bps = first_positional_params(pb)        # data, segnum, salt
+        if len(ips) < 9 or len(bps) < 3:
+            raise AnchorVanished("MDMFSlotWriteProxy(shnum, .., k, N, segment_size, data_length).put_block(data, segnum, salt) changed")
+        salt_size = folder.name("SALT_SIZE", wpi.module, None)
+        bht_store = [n for n in wpi.cfg().nodes if "self._offsets[]" in node_stores(n) and isinstance(n.ast, ast.Assign)
+                     and norm_plain(n.ast.targets[0]) == "self._offsets['block_hash_tree']"]
+        if not bht_store:
+            raise AnchorVanished("MDMFSlotWriteProxy.__init__ no longer places the block hash tree")
+        r.site(wpi, bht_store[-1].ast, "block hash tree offset")
+        apps = [c for c in calls_in_func(pb, "append") if call_name(c) == "self._writevs.append"]
+        if not apps:
+            raise AnchorVanished("put_block no longer queues a write vector")
+        r.site(pb, apps[0], "block extent")
+        bad, runs = None, 0
+        for D in [x for x in _boundary_points(S) if x >= 1]:
+            if bad:
+                break
+            fr = {"self": _Ref("self"), ips[0]: 0, ips[1]: UNK, ips[2]: UNK, ips[3]: UNK, ips[4]: 1, ips[5]: 3, ips[6]: 10,
+                  ips[7]: S, ips[8]: D}
+            outs = _Sim(idx).run(wpi, fr, {"self": {}})
+            runs += 1
+            what = "a %d-byte MDMF file (k=3, S=%d)" % (D, S)
+            if len(outs) != 1:
+                raise AnalysisError("cannot evaluate MDMFSlotWriteProxy.__init__ for %s (%d paths)" % (what, len(outs)))
+            hp = outs[0][2]
+            offs = hp["self"].get("_offsets", UNK)
+            if not isinstance(offs, dict) or not all(isinstance(offs.get(k), int) for k in ("share_data", "block_hash_tree")):
+                raise AnalysisError("cannot evaluate the share_data / block_hash_tree offsets of %s: %r" % (what, offs))
+            lo, hi = offs["share_data"], offs["block_hash_tree"]
+            nseg = _div_ceil(D, S)
+            tail = D - (nseg - 1) * S
+            prev_end = lo
+            for segnum in sorted({0, max(0, nseg - 2), nseg - 1}):
+                blen = _div_ceil(S if segnum + 1 < nseg else tail, 3)
+                sim = _Sim(idx, observe={"append"})
+                outs = sim.run(pb, {"self": _Ref("self"), bps[0]: _Data([("block", 0, blen)]), bps[1]: segnum,
+                                    bps[2]: _Data([("salt", 0, salt_size)])}, copy.deepcopy(hp))
+                runs += 1
+                vec = [a[0] for (_f, _c, a, _k) in sim.seen if len(a) == 1 and isinstance(a[0], tuple) and len(a[0]) == 2]
+                if len(outs) != 1 or len(vec) != 1:
+                    bad = (pb, apps[0], "put_block %s for block %d (%d bytes) of %s" % (
+                        "raises" if not outs else "queues %d write vectors" % len(vec), segnum, blen, what))
+                    break
+                at, payload = vec[0]
+                if not isinstance(at, int) or not isinstance(payload, _Data):
+                    raise AnalysisError("cannot evaluate the write vector of block %d of %s: %r" % (segnum, what, vec[0]))
+                if at < prev_end and segnum > 0 or at < lo:
+                    bad = (pb, apps[0], "block %d of %s is written at offset %d, inside the %s that ends at %d" % (
+                        segnum, what, at, "previous block" if at >= lo else "share header area", prev_end if at >= lo else lo))
+                    break
+                if at + len(payload) > hi:
+                    bad = (wpi, bht_store[-1].ast, "block %d of %s (salt + block = %d bytes) is written at [%d, %d) but the "
+                           "block hash tree is placed at offset %d: the tree overwrites the end of the share data, "
+                           "every share fails its block hash check and the file cannot be read back" % (
+                               segnum, what, len(payload), at, at + len(payload), hi))
+                    break
+                if segnum == 0:
+                    prev_end = at + len(payload)
+                else:
+                    prev_end = max(prev_end, at + len(payload))
+        r.count(runs)
+        if bad:
+            r.violation(bad[0], bad[0].loc(bad[1]), bad[2])
+
+    # ---- 17. the queued write vectors are what is sent ---------------------------------------
+    with ctx.rule("C09.17", "R5", "the share writers send what they queued: the remote slot_testv_and_readv_and_writev "
+                  "call carries, under the writer's own share number, the data vectors (MDMF: the queue self._writevs "
+                  "every put_* appends to; SDMF: the joined share)", expected=3) as r:
+        def transmits(fn, data_ok, what):
+            cfg = fn.cfg()
+            fnorm = FlowNorm(fn, depth=8)
+            calls = [(n, c) for n in cfg.nodes for c in node_calls(n) if call_tail(c) == "slot_testv_and_readv_and_writev"]
+            if len(calls) != 1:
+                raise AnchorVanished("%s no longer makes one slot_testv_and_readv_and_writev call" % short(fn))
+            n, c = calls[0]
+            r.site(fn, c, what)
+            tw = c.args[2] if len(c.args) > 2 else kwarg(c, "tw_vectors")
+            if not isinstance(tw, ast.Name):
+                raise AnalysisError("the test-and-write vectors sent by %s are %s" % (short(fn), src(fn, tw) if tw is not None else "missing"))
+
+            def entry(m):
+                if m.kind != "stmt" or not isinstance(m.ast, ast.Assign) or len(m.ast.targets) != 1:
+                    return False
+                t = m.ast.targets[0]
+                v = m.ast.value
+                if attr_path(t) == tw.id and isinstance(v, ast.Dict) and len(v.keys) == 1 and v.keys[0] is not None \
+                        and attr_path(v.keys[0]) == "self.shnum":
+                    v = v.values[0]                  # tw_vectors = {self.shnum: (...)}
+                elif not (isinstance(t, ast.Subscript) and attr_path(t.value) == tw.id and attr_path(t.slice) == "self.shnum"):
+                    return False
+                return isinstance(v, ast.Tuple) and len(v.elts) == 3 and data_ok(fnorm, m, v.elts[1])
+            wrong = [m for m in cfg.nodes if (tw.id + "[]") in node_stores(m) and not entry(m)]
+            for m in wrong:
+                r.violation(fn, fn.loc(m.ast), "%s fills the test-and-write vectors with %s; the storage server applies "
+                            "the entry {self.shnum: (test vector, data vectors, new length)}" % (short(fn), src(fn, m.ast)))
+            for (t, w) in find_path_avoiding(cfg, lambda x: x is n, gate_node=entry,
+                                             kill=lambda m: tw.id in node_stores(m) and not entry(m)):
+                r.violation(fn, fn.loc(c), "%s can call the storage server without an entry for its share in the "
+                            "test-and-write vectors: the server answers success, nothing is written and the publish "
+                            "reports the share as placed (path: %s)" % (short(fn), w.brief()), w)
+        wfn = idx.func(WP + "._write")
+        wps = first_positional_params(wfn)
+        transmits(wfn, lambda fnorm, m, e: attr_path(fnorm.resolve(m, e)) == wps[0], "MDMF remote write")
+        fin = idx.func(WP + ".finish_publishing")
+        sent = [c for c in calls_in_func(fin, "_write")]
+        if len(sent) != 1:
+            raise AnchorVanished("MDMFSlotWriteProxy.finish_publishing no longer calls _write once")
+        r.site(fin, sent[0], "MDMF queue handed to _write")
+        got = sent[0].args[0] if sent[0].args else kwarg(sent[0], wps[0])
+        r.require(got is not None and attr_path(got) == "self._writevs", fin, fin.loc(sent[0]),
+                  "finish_publishing sends %s; put_block / put_blockhashes / ... queue their vectors in self._writevs" % (
+                      src(fin, got) if got is not None else "nothing"))
+        sfp = idx.func(SW + ".finish_publishing")
+
+        def sdmf_data(fnorm, m, e):
+            at, v = _def_of(fnorm, m, e)
+            if not (isinstance(v, ast.List) and len(v.elts) == 1 and _pair(v.elts[0])):
+                return False
+            _at, d = _def_of(fnorm, at, _pair(v.elts[0])[1])
+            return isinstance(d, ast.Call) and call_tail(d) == "join"
+        transmits(sfp, sdmf_data, "SDMF remote write")
+
+
+# ---- which component of a nested answer structure an expression is (flow-insensitive shape inference) ----
+# shapes: "shnum" / "block" / "salt" (atoms), ("tuple", (shapes..)), ("list", shape), ("dict", key shape, value shape),
+# None = nothing known yet (an empty container), "?" = cannot tell
+def _join(a, b):
+    if a is None:
+        return b
+    if b is None or a == b:
+        return a
+    if isinstance(a, tuple) and isinstance(b, tuple) and a[0] == b[0] and len(a) == len(b):
+        if a[0] == "tuple":
+            if len(a[1]) != len(b[1]):
+                return "?"
+            return ("tuple", tuple(_join(x, y) for x, y in zip(a[1], b[1])))
+        return (a[0],) + tuple(_join(x, y) for x, y in zip(a[1:], b[1:]))
+    return "?"
+
+
+def _elem(t):
+    if isinstance(t, tuple) and t[0] == "list":
+        return t[1]
+    if isinstance(t, tuple) and t[0] == "dict":
+        return t[1]
+    return "?" if t is not None else None
+
+
+def _unknown_type(t):
+    if t is None or t == "?":
+        return True
+    if isinstance(t, tuple):
+        return any(_unknown_type(x) for x in (t[1] if t[0] == "tuple" else t[1:]))
+    return False
+
+
+def _type_txt(t):
+    if t is None:
+        return "nothing"
+    if isinstance(t, str):
+        return {"shnum": "the share number", "block": "the block", "salt": "the salt", "?": "something undetermined"}.get(t, t)
+    if t[0] == "tuple":
+        return "(" + ", ".join(_type_txt(x) for x in t[1]) + ")"
+    if t[0] == "list":
+        return "a list of " + _type_txt(t[1])
+    return "a dict {%s: %s}" % (_type_txt(t[1]), _type_txt(t[2]))
+
+
+def _type_of(env, e, local=None):
+    loc = local or {}
+    if isinstance(e, ast.Name):
+        return loc[e.id] if e.id in loc else env.get(e.id, "?")
+    if isinstance(e, ast.Constant) and e.value is None:
+        return "?"
+    if isinstance(e, ast.Dict) and not e.keys:
+        return ("dict", None, None)
+    if isinstance(e, (ast.List,)) and not e.elts:
+        return ("list", None)
+    if isinstance(e, ast.Tuple):
+        return ("tuple", tuple(_type_of(env, x, loc) for x in e.elts))
+    if isinstance(e, ast.List):
+        t = None
+        for x in e.elts:
+            t = _join(t, _type_of(env, x, loc))
+        return ("list", t)
+    if isinstance(e, ast.Subscript):
+        t = _type_of(env, e.value, loc)
+        if t is None:
+            return None                  # nothing known yet (bottom): stays bottom, so that a later pass can refine it
+        if isinstance(e.slice, ast.Slice):
+            return t if isinstance(t, tuple) and t[0] == "list" else "?"
+        if isinstance(t, tuple) and t[0] == "tuple":
+            if isinstance(e.slice, ast.Constant) and isinstance(e.slice.value, int) and -len(t[1]) <= e.slice.value < len(t[1]):
+                return t[1][e.slice.value]
+            return "?"
+        if isinstance(t, tuple) and t[0] == "list":
+            return t[1]
+        if isinstance(t, tuple) and t[0] == "dict":
+            return t[2]
+        return "?"
+    if isinstance(e, (ast.ListComp, ast.GeneratorExp)) and len(e.generators) == 1:
+        g = e.generators[0]
+        inner = dict(loc)
+        _bind(inner, g.target, _elem(_type_of(env, g.iter, loc)))
+        return ("list", _type_of(env, e.elt, inner))
+    if isinstance(e, ast.Call):
+        t = call_tail(e)
+        if isinstance(e.func, ast.Attribute) and not e.args and t in ("items", "keys", "values"):
+            d = _type_of(env, e.func.value, loc)
+            if d is None:
+                return None
+            if isinstance(d, tuple) and d[0] == "dict":
+                return ("list", {"items": ("tuple", (d[1], d[2])), "keys": d[1], "values": d[2]}[t])
+            return "?"
+        if isinstance(e.func, ast.Name) and t in ("list", "tuple", "sorted", "reversed", "iter") and e.args:
+            a = _type_of(env, e.args[0], loc)
+            if a is None:
+                return None
+            return ("list", _elem(a)) if isinstance(a, tuple) and a[0] in ("list", "dict") else "?"
+        if isinstance(e.func, ast.Name) and t in ("list",) and not e.args:
+            return ("list", None)
+        if isinstance(e.func, ast.Name) and t == "dict":
+            if not e.args:
+                return ("dict", None, None)
+            a = _type_of(env, e.args[0], loc)
+            if isinstance(a, tuple) and a[0] == "dict":
+                return a
+            el = _elem(a)
+            if el is None:
+                return None
+            if isinstance(el, tuple) and el[0] == "tuple" and len(el[1]) == 2:
+                return ("dict", el[1][0], el[1][1])
+            return "?"
+        if isinstance(e.func, ast.Name) and t == "zip" and len(e.args) == 1 and isinstance(e.args[0], ast.Starred):
+            el = _elem(_type_of(env, e.args[0].value, loc))
+            if el is None:
+                return None
+            if isinstance(el, tuple) and el[0] == "tuple":
+                return ("tuple", tuple(("list", x) for x in el[1]))
+            return "?"
+        if isinstance(e.func, ast.Name) and t == "next" and e.args:
+            return _elem(_type_of(env, e.args[0], loc))
+    return "?"
+
+
+def _bind(env, target, t):
+    if isinstance(target, ast.Name):
+        env[target.id] = _join(env.get(target.id), t) if target.id in env else t
+    elif isinstance(target, (ast.Tuple, ast.List)):
+        if isinstance(t, tuple) and t[0] == "tuple" and len(t[1]) == len(target.elts):
+            for x, y in zip(target.elts, t[1]):
+                _bind(env, x, y)
+        else:
+            for x in target.elts:
+                _bind(env, x.value if isinstance(x, ast.Starred) else x, "?" if t is not None else None)
+
+
+def _component_types(fn, seed):
+    """Forward data flow over the CFG: {node id: {local name: shape}} on entry to each node."""
+    cfg = fn.cfg()
+    IN = {cfg.entry.id: dict(seed)}
+    work = [cfg.entry.id]
+    steps = 0
+    while work:
+        steps += 1
+        if steps > 40 * len(cfg.nodes) + 100:
+            raise AnalysisError("shape inference of %s does not settle" % short(fn))
+        nid = work.pop()
+        n = cfg.nodes[nid]
+        for (dst, lab) in cfg.succ[nid]:
+            env = dict(IN[nid])
+            if lab != "exc":
+                _transfer(n, lab, env)
+            cur = IN.get(dst)
+            if cur is None:
+                IN[dst] = env
+                work.append(dst)
+                continue
+            changed = False
+            for k, v in env.items():
+                j = _join(cur[k], v) if k in cur else v
+                if k not in cur or j != cur[k]:
+                    cur[k] = j
+                    changed = True
+            if changed:
+                work.append(dst)
+    return IN
+
+
+def _transfer(n, lab, env):
+    st = n.ast
+    if n.kind == "iter":
+        if lab == "iter":
+            _strong(env, st.target, _elem(_type_of(env, st.iter)))
+        return
+    if n.kind != "stmt":
+        return
+    if isinstance(st, ast.Assign):
+        t = _type_of(env, st.value)
+        for tg in st.targets:
+            if isinstance(tg, (ast.Name, ast.Tuple, ast.List)):
+                _strong(env, tg, t)
+    elif isinstance(st, ast.AugAssign) and isinstance(st.target, ast.Name):
+        env[st.target.id] = _join(env.get(st.target.id), _type_of(env, st.value))
+    elif isinstance(st, ast.Expr) and isinstance(st.value, ast.Call) and isinstance(st.value.func, ast.Attribute) \
+            and isinstance(st.value.func.value, ast.Name) and len(st.value.args) == 1:
+        nm, meth = st.value.func.value.id, st.value.func.attr
+        a = _type_of(env, st.value.args[0])
+        if meth == "update":
+            env[nm] = _join(env.get(nm), a if isinstance(a, tuple) and a[0] == "dict" else "?")
+        elif meth == "append":
+            env[nm] = _join(env.get(nm), ("list", a))
+        elif meth == "extend":
+            env[nm] = _join(env.get(nm), a if isinstance(a, tuple) and a[0] == "list" else "?")
+        elif meth in ("sort", "reverse"):
+            pass
+    elif isinstance(st, ast.Expr) and isinstance(st.value, ast.Call) and isinstance(st.value.func, ast.Attribute) \
+            and isinstance(st.value.func.value, ast.Name) and st.value.func.attr in ("sort", "reverse"):
+        pass
+
+
+def _strong(env, target, t):
+    if isinstance(target, ast.Name):
+        env[target.id] = t
+    elif isinstance(target, (ast.Tuple, ast.List)):
+        if isinstance(t, tuple) and t[0] == "tuple" and len(t[1]) == len(target.elts):
+            for x, y in zip(target.elts, t[1]):
+                _strong(env, x, y)
+        else:
+            for x in target.elts:
+                _strong(env, x.value if isinstance(x, ast.Starred) else x, "?" if t is not None else None)
+
+
+def _def_of(fnorm, node, e):
+    """(defining node, value) of a local name with exactly one reaching definition at `node` (also list literals,
+    which FlowNorm does not inline); (node, e) otherwise."""
+    for _hop in range(4):
+        if not isinstance(e, ast.Name):
+            break
+        ds = fnorm.rd.get(node.id, {}).get(e.id) or ()
+        if len(ds) != 1 or min(ds) < 0:
+            break
+        dn = fnorm.cfg.nodes[min(ds)]
+        v = fnorm._def_value(dn, e.id)
+        if v is None:
+            break
+        node, e = dn, v
+    return node, e
+
+
+def _not_a_deferred(fn, fnorm, node, v):
+    """None when the returned expression is the result of a call / a Deferred kept on self; else what it is."""
+    if v is None:
+        return "nothing"
+    v = fnorm.resolve(node, v)
+    if isinstance(v, ast.Constant):
+        return repr(v.value)
+    if isinstance(v, ast.Call):
+        return None
+    if isinstance(v, ast.Name):
+        ds = fnorm.rd.get(node.id, {}).get(v.id) or ()
+        vals = [fnorm._def_value(fnorm.cfg.nodes[d], v.id) if d >= 0 else None for d in ds]
+        if vals and all(isinstance(d, ast.Call) for d in vals):
+            return None
+        return "`%s` (not the result of a call on every path)" % v.id
+    pth = attr_path(v)
+    if pth and pth.startswith("self."):
+        for n in fn.cfg().nodes:
+            x = assign_value(n, pth) if pth in node_stores(n) else None
+            if isinstance(x, ast.Call) and call_tail(x) == "Deferred":
+                return None
+        return "%s, which is not a Deferred created for this operation" % pth
+    return src(fn, v)
+
 
 def _gathered(fn, node, e, role):
     """Roles, in order, of the Deferreds handed to gatherResults: a list literal, or a local list that is created
@@ -1793,8 +2393,11 @@ def _parents(fn):
 def _component(expr, target):
     """Which part of the iteration variable `target` the expression is: tuple index, 'whole', or None."""
     if isinstance(target, (ast.Tuple, ast.List)):
+        base = expr
+        while isinstance(base, ast.Subscript) and isinstance(base.slice, ast.Constant) and isinstance(base.slice.value, int):
+            base = base.value            # a fixed part of one element is still that element's position in the sequence
         for i, t in enumerate(target.elts):
-            if isinstance(t, ast.Name) and isinstance(expr, ast.Name) and expr.id == t.id:
+            if isinstance(t, ast.Name) and isinstance(base, ast.Name) and base.id == t.id:
                 return i
         return None
     if isinstance(target, ast.Name):
@@ -2198,6 +2801,24 @@ _EXTERNAL = {"pyutil.mathutil.div_ceil": _div_ceil,
              "pyutil.mathutil.pad_size": lambda n, k: (k - n % k) if n % k else 0}
 
 
+def _log_ceil(n, b):
+    p_, k_ = 1, 0
+    while p_ < n:
+        p_, k_ = p_ * b, k_ + 1
+    return k_
+
+
+_EXTERNAL["pyutil.mathutil.log_ceil"] = _log_ceil
+
+
+class _ModuleScope(object):
+    """Stands in for a FuncInfo when a module-level constant's defining expression is evaluated."""
+    def __init__(self, module):
+        self.module = module
+        self.cls = None
+        self.qual = module.name if hasattr(module, "name") else "<module>"
+
+
 _INLINE_CACHE = {}
 
 
@@ -2237,6 +2858,7 @@ class _Sim(object):
         self.seen = []                   # [(FuncInfo, ast.Call, [args], {kwargs})]
         self.seen_heap = []              # the heap at each recorded call (parallel to .seen)
         self.halt_at_loops = False       # True: a path that reaches a loop head ends there and is reported
+        self.const_depth = 0
         self.depth = 0
 
     # -- which helper methods are followed
@@ -2291,6 +2913,14 @@ class _Sim(object):
             try:
                 return self.folder.name(e.id, fn.module, None)
             except NotConstant:
+                # a module constant computed with a modelled third-party helper (e.g. mathutil.log_ceil)
+                exprs = fn.module.assigns.get(e.id) or []
+                if len(exprs) == 1 and self.const_depth < 4:
+                    self.const_depth += 1
+                    try:
+                        return self.ev(_ModuleScope(fn.module), exprs[0], {}, hp)
+                    finally:
+                        self.const_depth -= 1
                 return UNK
         if isinstance(e, ast.Attribute):
             b = self.ev(fn, e.value, fr, hp)
